@@ -10,6 +10,7 @@ package sim
 import (
 	"fmt"
 	"hash/fnv"
+	"regexp"
 	"runtime"
 	"sort"
 	"strconv"
@@ -560,6 +561,8 @@ type Result struct {
 	HarnessEr string // harness-level panic (infrastructure error)
 }
 
+var libFrame = regexp.MustCompile(`github\.com/bluenviron/gohlslib/v2(?:/pkg/\w+)?\.(\(?\*?[\w.]+\)?[\w.]*)\(`)
+
 // Scenario is the body of a run, executed as the scheduler goroutine.
 type Scenario func(r *Run)
 
@@ -599,6 +602,30 @@ func ExecuteSweep(t *testing.T, prop, profile string, seed uint64, sweepPos int,
 				msg := fmt.Sprint(p)
 				if strings.Contains(msg, "blocked goroutines remain") {
 					res.Leaked = true
+					return
+				}
+				if strings.Contains(msg, "all goroutines in bubble are blocked") {
+					// every goroutine of the run, the scheduler included, waits for another one and no timer is
+					// pending: a call into the library never returns (the harness itself only waits inside such
+					// calls or for timers). The key is the library function the deepest waiting goroutine sits in.
+					all := make([]byte, 1<<20)
+					all = all[:runtime.Stack(all, true)]
+					key, excerpt := "unknown", ""
+					for _, g := range strings.Split(string(all), "\n\n") {
+						if !strings.Contains(g, "synctest bubble") {
+							continue
+						}
+						if m := libFrame.FindStringSubmatch(g); m != nil {
+							if key == "unknown" || strings.Contains(g, "verifsim.") {
+								key = m[1]
+								excerpt = g
+							}
+						}
+					}
+					if len(excerpt) > 1500 {
+						excerpt = excerpt[:1500]
+					}
+					r.Fail("deadlock", key, "every goroutine of the run is blocked and no timer is pending: a call into the library can never return; one of the goroutines:\n%s", excerpt)
 					return
 				}
 				buf := make([]byte, 1<<16)
